@@ -721,8 +721,8 @@ def gen_exp_case(r, paf=False, nmax=8):
         # keep the coins' exponents moderate so that the decision tree stays small
         sc = eps / sens / (1 if mono else 2)
         span = max(max(u) - min(u), 1e-300)
-        if sc * span > 8:
-            f = 8 / (sc * span) * r.uniform(0.2, 1.0)
+        if sc * span > 30:
+            f = 30 / (sc * span) * r.uniform(0.05, 1.0)
             u = [a * f for a in u]
             up = [a * f for a in up]
             up = [b if within([a], [b], sens, mono) else a for a, b in zip(u, up)]
@@ -947,6 +947,45 @@ def enumerate_law(run, cutoff, max_paths):
     return law, paths
 
 
+_REAL_BERN = M.base.bernoulli_neg_exp
+_COIN_CACHE = {}
+
+
+def coin_law(gamma):
+    """exact law of the REAL bernoulli_neg_exp(gamma) (P[1], lost mass), by enumeration; its recursive unit-coin calls
+    go through the wrapper below, i.e. each nested call is one Bernoulli branch with the law extracted for gamma = 1"""
+    key = f2b(gamma)
+    if key not in _COIN_CACHE:
+        law, paths = enumerate_law(lambda rng: int(_REAL_BERN(gamma, rng)), 1e-17, 100000)
+        _COIN_CACHE[key] = (law.p(1), law.p(0), law.cut, paths)
+    return _COIN_CACHE[key]
+
+
+def _coin_wrapper(gamma, random_state=None):
+    if isinstance(random_state, Engine) and gamma >= 0:
+        p1, p0, cut, _ = coin_law(float(gamma))
+        ch = random_state._branch([p1, p0, cut])
+        if ch == 2:
+            raise Pruned()
+        return 1 if ch == 0 else 0
+    return _REAL_BERN(gamma, random_state)
+
+
+class coin_interposed:
+    """within the block, calls of bernoulli_neg_exp made with an enumeration engine are a single branch whose law was
+    extracted from the real function (composition of independent draws); everything else runs the real function"""
+
+    def __enter__(self):
+        _COIN_CACHE.clear()
+        self.saved = (M.base.bernoulli_neg_exp, M.exponential.bernoulli_neg_exp)
+        M.base.bernoulli_neg_exp = _coin_wrapper
+        M.exponential.bernoulli_neg_exp = _coin_wrapper
+        return self
+
+    def __exit__(self, *a):
+        M.base.bernoulli_neg_exp, M.exponential.bernoulli_neg_exp = self.saved
+
+
 def paf_run(c, util):
     def run(rng):
         try:
@@ -963,14 +1002,15 @@ def check_paf(ctx, r, n):
     quick = ctx.tier == "quick"
     lines, cases = [], []
     for i in range(n):
-        c = gen_exp_case(r, paf=True, nmax=(4 if quick else 5) if i % 8 else (5 if quick else 7))
+        c = gen_exp_case(r, paf=True, nmax=(5 if quick else 6) if i % 8 else (5 if quick else 7))
         k = len(c["utility"])
-        cutoff = 1e-12 if k <= 5 else 1e-11
+        cutoff = 1e-12
         laws = {}
-        for tag in ("utility", "utility_p"):
-            laws[tag], paths = enumerate_law(paf_run(c, c[tag]), cutoff, 400000)
-            ctx.count("paf_paths", paths)
-            ctx.counters["paf_max_lost_mass"] = max(ctx.counters.get("paf_max_lost_mass", 0.0), laws[tag].cut)
+        with coin_interposed():
+            for tag in ("utility", "utility_p"):
+                laws[tag], paths = enumerate_law(paf_run(c, c[tag]), cutoff, 400000)
+                ctx.count("paf_paths", paths)
+                ctx.counters["paf_max_lost_mass"] = max(ctx.counters.get("paf_max_lost_mass", 0.0), laws[tag].cut)
         params = {k2: c[k2] for k2 in ("epsilon", "sensitivity", "monotonic")}
         for a, b in (("utility", "utility_p"), ("utility_p", "utility")):
             dp_check(ctx, "C01:permute-and-flip:ratio", "PermuteAndFlip", params, c[a], c[b], laws[a], laws[b], c["epsilon"])
@@ -1022,8 +1062,9 @@ def check_bernoulli(ctx, r, n):
         g = r.choice([0.0, 1.0, 0.5, 2.0, 1.0 + 2 ** -52, 3.0]) if m < 0.2 else (r.uniform(0, 1) if m < 0.6 else r.loguniform(1e-6, 12.0))
 
         def run(rng, g=g):
-            return int(bern(g, rng))
-        law, paths = enumerate_law(run, 1e-14, 400000)
+            return int(_REAL_BERN(g, rng))
+        with coin_interposed():
+            law, paths = enumerate_law(run, 1e-16, 400000)
         ctx.count("bern_paths", paths)
         lines.append(f"bernlaw {fl(g)}")
         cases.append(("law", g, law))
